@@ -99,8 +99,8 @@ CFG = {
                 rule="ASAP and ALAP envelope projects with sub-slot efforts and gaps (two streams with teams of one common efficiency); oracle: bookings inside [start, end], first/last booked "
                      "slot contain start/end, interval long enough for the work of those slots, milestones at their bound"),
     "C08": dict(files=["Properties/C08.lean"], oracles=("C08",),
-                knobs=[(2, Knobs(envelope="asap", p_limits=0.05, p_tasklimits=0.0, p_wh=0.5, p_leave=0.5, p_tz=0.3)),
-                       (1, Knobs(envelope="alap", p_limits=0.05, p_tasklimits=0.0, p_wh=0.5, p_leave=0.5)),
+                knobs=[(2, Knobs(envelope="asap", p_limits=0.05, p_tasklimits=0.0, p_wh=0.5, p_leave=0.5, p_tz=0.3, p_gvac=0.5)),
+                       (1, Knobs(envelope="alap", p_limits=0.05, p_tasklimits=0.0, p_wh=0.5, p_leave=0.5, p_tz=0.3, p_gvac=0.5)),
                        # sparse backward projects with nested containers and equal local ids: wrong deadlines show as idle time
                        (1, Knobs(envelope="alap", max_res=2, max_tasks=6, p_twin=0.7, p_container=0.85, p_dep=0.8, p_gap=0.3,
                                  p_limits=0.0, p_tasklimits=0.0, big_effort=0.0, dur_weeks=[3, 4])),
